@@ -1,33 +1,47 @@
 """C12 — signatures do not depend on incidental numbering or process state.
 
 Model: spec/SigCounters.tla.  State = the process-global counters of ufl (Index, Coefficient,
-Constant, Label, Mesh ufl_id); a user script (one instruction per constructor call) is written,
-a prior history shifts the counters (Bump), the script runs against the live counters (Step) and
+Constant, Label, Mesh ufl_id); a user script (one instruction per constructor call) is written, a
+prior history shifts the counters (Bump), the script runs against the live counters (Step) and
 Finish computes the form signature as coded (operand order by cmp_expr with the repr-STRING
 comparator for Constant / geometric quantities / Zero, renumbering of counted terminals, index
-numbering by first occurrence in unique_pre_traversal order, raw repr of a Zero with free
-indices).  SigInvariant: the signature equals the signature of the same script run from the
-import-time counters.
+numbering by first occurrence in unique_pre_traversal order, raw repr of a Zero with free indices).
+SigInvariant: the signature equals the signature of the same script run from the import-time
+counters.
 
 The check
- (a) runs TLC on the intended machine (Comparator = "numeric", ZeroSig = "renumbered"): the invariant
-     must hold (else MachineryError), and on the machine as coded ("repr", "raw"), one script family at
-     a time: every counterexample is replayed on the real code (reproduced -> violation, else
-     informational: the code no longer behaves as that transcription);
- (b) lets TLC emit every finished behaviour (script, offsets, signature structure) of the
-     transcription that matches the code under test (probed) and replays all of them: for every
-     script the partition of the offset vectors by REAL signature must equal the partition by
-     MODEL signature;
- (c) checks the property itself on real ufl for a corpus of hand written recipes (forms with
-     several constants / coefficients / geometric quantities on 1-2 meshes, index notation,
-     variables, Zero-with-free-index branches, mixed elements, measures with subdomain ids and
-     metadata, several integrals, ExternalOperator / Interpolate, derivative / action / adjoint /
-     lhs / rhs) and seeded random scripts over a richer instruction set: every (program, offset
-     vector, PYTHONHASHSEED) runs in a fresh interpreter started with
-     that hash seed) that first performs the counter-shifting history and then builds the form by
-     the same recipe; all signatures of one program must be identical.  Every discrepancy is
-     diagnosed (which counter alone reproduces it; which terminal hashdata / which operand order
-     changed and which terminal comparison decided it) and reported with a mechanism fingerprint.
+ (a) runs TLC on the intended machine (Comparator = "numeric", ZeroSig = "renumbered"): the
+     invariant must hold for every script and history within the bounds (else MachineryError), and
+     on the machines as coded (Comparator = "repr"; ZeroSig = "raw"): each must yield a
+     counterexample, which is replayed on the real code in fresh interpreters (reproduced ->
+     violation, else informational: the code no longer behaves like that transcription);
+ (b) conformance: TLC enumerates the scripts of the transcription that matches the code under test
+     (probed); the scripts run on the real code under many histories; TLC then evaluates the model
+     signature at exactly the observed counter values (trace validation); per script the partition
+     of the runs by REAL signature must equal the partition by MODEL signature;
+ (c) checks the property itself on real ufl for a corpus of hand written recipes (forms with several
+     constants / coefficients / geometric quantities on 1-2 meshes, index notation, variables,
+     Zero-with-free-index branches, mixed elements, measures with subdomain ids and metadata, several
+     integrals, ExternalOperator / Interpolate, derivative / action / adjoint / lhs / rhs /
+     compute_form_data) and seeded random scripts over a richer instruction set.
+
+A run = one program built in a FRESH interpreter (started with a given PYTHONHASHSEED) after a prior
+history: objects of the counted classes created and dropped by the harness, and the earlier steps of
+the same interpreter (a chain of steps per interpreter: starting an interpreter costs ~1 s, a step
+~1 ms; forking is even more expensive on the verification machine).  The effective shift of every
+counter is read back and recorded.  Histories: all counters shifted by each value of
+{0,1,7,8,9,10,95,98,99,100,998,1000}; one counter at a time; every digit boundary 10/100/1000/10000
+placed at every position inside the objects the program itself creates (the number of objects per
+class is measured first); random phases.  All signatures of one program (form.signature(), the
+signature after renumber_indices, compute_expression_signature of bare expressions) must be
+identical.  Every discrepancy is classified from structure dumps (terminal hashdata / operand order
+of Sum and Product nodes and the terminal comparison that decided it), reproduced in two fresh
+interpreters whose histories differ in ONE counter (or, failing that, in the whole shift / only in
+the hash seed), and reported with a mechanism fingerprint, e.g.
+  C12:operand-order-by-repr:Constant:digit-boundary
+  C12:operand-order-by-repr:GeometricQuantity:mesh-id-digit-boundary
+  C12:raw-index-count-in-signature:Zero-free-index
+  C12:hashseed:<what>
 """
 
 from __future__ import annotations
@@ -645,6 +659,7 @@ def _decider(a, b, diag=False):
     last number, the terminal's own counter; "index" for a Zero; "mesh" otherwise) and whether the
     two numbers have a different number of digits (`crosses`)."""
     from ufl.sorting import cmp_expr
+    from ufl.utils.counted import Counted
 
     stack = [(a, b)]
     while stack:
@@ -662,7 +677,7 @@ def _decider(a, b, diag=False):
                     if diff:
                         i = diff[0]
                         crosses = len(str(dx[i])) != len(str(dy[i]))
-                        field = "index" if type(x).__name__ == "Zero" else "count" if i == len(dx) - 1 and hasattr(x, "count") else "mesh"
+                        field = "index" if type(x).__name__ == "Zero" else "count" if i == len(dx) - 1 and isinstance(x, Counted) else "mesh"
                 r = {"by": "terminal", "cls": [type(x).__name__], "field": field, "crosses": crosses}
                 if diag:
                     r.update(a=rx[-100:], b=ry[-100:], c=c)
@@ -849,6 +864,8 @@ def run_interpreter(chain):
     env = dict(os.environ)
     env["PYTHONHASHSEED"] = str(chain["seed"])
     env["PYTHONDONTWRITEBYTECODE"] = "1"
+    env.setdefault("OMP_NUM_THREADS", "1")
+    env.setdefault("OPENBLAS_NUM_THREADS", "1")
     p = subprocess.run(
         [sys.executable, "-m", "vf.checks.c12", "--worker"],
         cwd=ROOT,
@@ -1182,7 +1199,7 @@ class Checker:
             verdict = "differs"
         names = sorted(base.res["sigs"])
         seen = {}
-        for run in ok:
+        for run in sorted(ok, key=lambda r: sum(r.eff.values())):  # the smallest history of every deviating signature
             if count:
                 ctx.evaluated(len(names))
                 if any(run.eff.values()) or run.seed != "0":
@@ -1225,36 +1242,47 @@ class Checker:
             self.reported[fp] = self.reported.get(fp, 0) + 1
             self.mech[fp] = self.mech.get(fp, 0) + 1
         self.direct = []
+        todo = []
         for key in sorted(self.pending):
             items = sorted(self.pending[key], key=lambda it: (len(prog_key(it[0].prog)), it[3]))
-            done = 0
             progs = set()
             for case, base, run, nm, f in items:
-                if done >= per_mechanism or self.reported.get(key, 0) >= 2:
+                if len(progs) >= per_mechanism or self.reported.get(key, 0) + len(progs) >= 2:
                     break
                 if prog_key(case.prog) in progs:
                     continue
                 progs.add(prog_key(case.prog))
-                fp, what, rep = self.reproduce(case, base, run, nm, f)
-                self.ctx.violation(fp, what, rep)
-                self.reported[key] = self.reported.get(key, 0) + 1
-                if fp != key:
-                    self.mech[fp] = self.mech.get(fp, 0) + 1
-                done += 1
+                todo.append((key, case, base, run, nm, f))
         self.pending = {}
+        # stage 1 for all of them at once: a fresh process without history, and one that only
+        # shifts the suspected counter
+        plans, chains = [], []
+        for key, case, base, run, nm, f in todo:
+            K = guess_counter(f)
+            cands = [(r, {K: r.eff[K]}, "0") for r in (run, base) if K and r.eff.get(K)]
+            mine = [exact_chain(case.prog, ZERO, diag=True)] + [exact_chain(case.prog, e, s, diag=True) for _, e, s in cands]
+            plans.append((len(chains), len(mine), cands))
+            chains += mine
+        results = self._first(chains)
+        for (key, case, base, run, nm, f), (lo, n, cands) in zip(todo, plans):
+            fp, what, rep = self.reproduce(case, base, run, nm, f, guess_counter(f), cands, chains[lo : lo + n], results[lo : lo + n])
+            self.ctx.violation(fp, what, rep)
+            self.reported[key] = self.reported.get(key, 0) + 1
+            if fp != key:
+                self.mech[fp] = self.mech.get(fp, 0) + 1
 
-    def reproduce(self, case, base, run, nm, f):
+    def _first(self, chains):
+        out = []
+        for x in self.pool.run(chains):
+            st = x["steps"][0] if x.get("steps") else x
+            if st.get("ok"):
+                st["dumps"] = x["dumps"]
+            out.append(st)
+        return out
+
+    def reproduce(self, case, base, run, nm, f, K, cands, chains, res):
         prog = case.prog
-        K = guess_counter(f)
-
-        def first(chains):
-            out = []
-            for x in self.pool.run(chains):
-                st = x["steps"][0] if x.get("steps") else x
-                if st.get("ok"):
-                    st["dumps"] = x["dumps"]
-                out.append(st)
-            return out
+        first = self._first
 
         def dump_of(st):
             return lambda name: json.loads(st["dumps"][st["dump"][name]])
@@ -1263,13 +1291,6 @@ class Checker:
             if not all(x.get("ok") for x in res):
                 raise MachineryError(f"reproduction of {show_prog(prog)} failed ({what}): {[x.get('error') for x in res]}")
 
-        # stage 1: a fresh process without history, and one that only shifts the suspected counter
-        cands = []
-        for r in (run, base):
-            if K and r.eff.get(K):
-                cands.append((r, {K: r.eff[K]}, "0"))
-        chains = [exact_chain(prog, ZERO, diag=True)] + [exact_chain(prog, e, s, diag=True) for _, e, s in cands]
-        res = first(chains)
         need(res, "stage 1")
         a0 = res[0]
         hit = next(((c, ch, x) for c, ch, x in zip(cands, chains[1:], res[1:]) if x["sigs"][nm] != a0["sigs"][nm]), None)
@@ -1314,6 +1335,12 @@ class Checker:
         return fp, what, rep
 
 
+def prelim_key(finding, seed_only):
+    """Mechanism name before the reproduction in fresh processes (counter = the one the finding points at)."""
+    K = guess_counter(finding)
+    return fingerprint_of(finding, {K} if K else set(), hashseed=seed_only)
+
+
 def _pkey(d, erase_zero):
     """Positional rendering of a dumped node (numbers of free indices erased)."""
     if d[0] == "T":
@@ -1344,12 +1371,6 @@ def classify(nm, get_b, get_v):
         if [_pkey(d, True) for _, d in b] == [_pkey(d, True) for _, d in v] and [_pkey(d, False) for _, d in b] != [_pkey(d, False) for _, d in v]:
             finds = [("terminal-data", "Zero")]
     return finds or [("unclassified", None)]
-
-
-def prelim_key(finding, seed_only):
-    """Mechanism name before the reproduction in fresh processes (counter = the one the finding points at)."""
-    K = guess_counter(finding)
-    return fingerprint_of(finding, {K} if K else set(), hashseed=seed_only)
 
 
 # ---- histories -----------------------------------------------------------------------------------------
@@ -1411,6 +1432,29 @@ def chain_positions(prog, source, created, base, j=0, only=None):
         steps.append(st())  # once more, back to back
         if b < len(between):
             steps.append(st(targets={k: between[b] for k in KINDS}))
+    return steps
+
+
+def chain_placed_group(progs, source, made, base, j=0, rot=0):
+    """Up to four programs share an interpreter; each is placed exactly once: program i at the digit
+    boundary number (i + rot) mod 4, with the boundary after position POSITIONS[j] of the objects of
+    every class; it runs a second time back to back, then the other programs run unplaced."""
+    steps = []
+    for b, B in enumerate(BOUNDARIES):
+        i = (b - rot) % len(BOUNDARIES)
+        order = ([progs[i]] if i < len(progs) else []) + [p for n, p in enumerate(progs) if n != i]
+        for n, p in enumerate(order):
+            t = {}
+            if n == 0 and i < len(progs):
+                created = made[prog_key(p)]
+                for k in KINDS:
+                    if created[k] >= 1:
+                        v = B - _position(POSITIONS[j % len(POSITIONS)], created[k]) - base[k]
+                        if v >= 0:
+                            t[k] = v
+            steps.append({"program": p, "source": source, "targets": t})
+            if n == 0 and i < len(progs):
+                steps.append({"program": p, "source": source, "targets": {}})
     return steps
 
 
@@ -1738,6 +1782,13 @@ def model_signatures(ctx, base, transcription, observed):
 
 
 def conformance(ctx, chk, emit_jobs, transcription, base, rng, budget, deadline=None, corrupt=False):
+    """runs + model signatures + comparison in one go (selftest)"""
+    state = conformance_runs(ctx, chk, emit_jobs, transcription, base, rng, budget, deadline)
+    msigs = model_signatures(ctx, base, transcription, state["observed"])
+    return conformance_compare(ctx, state, msigs, transcription, corrupt)
+
+
+def conformance_runs(ctx, chk, emit_jobs, transcription, base, rng, budget, deadline=None):
     """Scripts enumerated by TLC are run on the real code under many histories; TLC then computes the
     model signature for exactly the observed counter shifts; per script, the partition of the runs by
     real signature must be the partition by model signature."""
@@ -1777,8 +1828,12 @@ def conformance(ctx, chk, emit_jobs, transcription, base, rng, budget, deadline=
             index.append((key, r))
     if not observed:
         raise MachineryError("conformance: no emitted script was run")
-    msigs = model_signatures(ctx, base, transcription, observed)
-    print(f"  conformance: {len(cases)} TLC-enumerated scripts, {sum(len(c.runs) for c in cases.values())} runs in {t2 - t1:.1f}s; TLC computed {len(observed)} model signatures in {time.time() - t2:.1f}s", flush=True)
+    print(f"  conformance: {len(cases)} TLC-enumerated scripts, {sum(len(c.runs) for c in cases.values())} runs in {t2 - t1:.1f}s", flush=True)
+    return {"observed": observed, "index": index, "cases": cases}
+
+
+def conformance_compare(ctx, state, msigs, transcription, corrupt=False):
+    observed, index, cases = state["observed"], state["index"], state["cases"]
     if corrupt:  # selftest: pretend the model distinguishes every run
         msigs = [m + str(n) for n, m in enumerate(msigs)]
     per = {}
@@ -1849,9 +1904,9 @@ def corpus_chains(ctx, base, rng):
         if made[prog_key(p)] is None:
             raise MachineryError(f"recipe {p['name']} does not build")
     zero_step = lambda p, src: [{"program": p, "source": src, "targets": dict(ZERO)}]  # noqa: E731
-    for p in recipes:
-        add(chain_positions(p, "recipe", made[prog_key(p)], base, j=0), must=True)
-    want = 48 if quick else 600
+    for k in range(0, len(recipes), 4):
+        add(chain_placed_group(recipes[k : k + 4], "recipe", made, base, j=0, rot=0), must=True)
+    want = 48 if quick else 480
     seen = set()
     scripts = []
     tries = dropped = 0
@@ -1876,15 +1931,27 @@ def corpus_chains(ctx, base, rng):
         add_groups(recipes, 8, lambda p, n: chain_standard(p, "recipe") + chain_phased(p, "recipe", rng, base))
         add_groups(scripts, 6, lambda p, n: zero_step(p, "random-script") + pos(p, "random-script", n, n) + chain_phased(p, "random-script", rng, base))
     else:
-        for j in range(1, 8):
-            for p in recipes:
-                add(chain_positions(p, "recipe", made[prog_key(p)], base, j=j) + chain_random(p, "recipe", rng))
+        first = len(chains)
+        for j in range(8):
+            for rot in range(4):
+                if (j, rot) != (0, 0):
+                    for k in range(0, len(recipes), 4):
+                        add(chain_placed_group(recipes[k : k + 4], "recipe", made, base, j=j, rot=rot))
+        add_groups(recipes[::-1], 8, lambda p, n: chain_random(p, "recipe", rng))
         add_groups(recipes, 8, lambda p, n: chain_standard(p, "recipe") + chain_phased(p, "recipe", rng, base))
         for k in KINDS:
             add_groups(recipes, 8, lambda p, n, k=k: chain_single(p, "recipe", k))
+        mid = len(chains)
         add_groups(scripts, 6, lambda p, n: zero_step(p, "random-script") + pos(p, "random-script", n, n) + chain_phased(p, "random-script", rng, base))
         add_groups(scripts[::-1], 6, lambda p, n: pos(p, "random-script", n + 3, n + 2) + chain_random(p, "random-script", rng))
         add_groups(scripts, 12, lambda p, n: chain_standard(p, "random-script"))
+        # recipes and scripts alternate, so that a time budget cuts both proportionally
+        a, b = chains[first:mid], chains[mid:]
+        mixed = []
+        while a or b:
+            mixed += a[:1] + b[:1]
+            a, b = a[1:], b[1:]
+        chains[first:] = mixed
     return chains
 
 
@@ -1954,6 +2021,7 @@ def run(ctx, args):
 
     base = pool.base = read_counters()
     ctx.cov["import_time_counters"] = base
+    ctx.cov["ufl_under_test"] = os.path.dirname(os.path.realpath(ufl.__file__))
     intended, emit, coded, transcription = plan_models(ctx)
     rng = random.Random(1000003 * ctx.seed + (1 if quick else 2))
     ex = ThreadPoolExecutor(max_workers=3 if quick else 2)  # quick: 3 TLC x 2 workers, thorough: 2 TLC x 4 workers
@@ -1961,19 +2029,22 @@ def run(ctx, args):
         order = emit + coded + intended
         futs = {id(j): ex.submit(j.run, base) for j in order}
         # (c) the property on the corpus, while TLC runs
-        corpus_part(ctx, chk, base, rng, t0 + (25 if quick else 380))
+        corpus_part(ctx, chk, base, rng, t0 + (22 if quick else 360))
         print(f"  [{time.time() - t0:.0f}s] corpus judged", flush=True)
         # (b) conformance of the transcription that matches the code under test
         for j in emit:
             futs[id(j)].result()
-        conformance(ctx, chk, emit, transcription, base, rng, 40 if quick else 900, t0 + (38 if quick else 500))
-        print(f"  [{time.time() - t0:.0f}s] conformance done", flush=True)
+        state = conformance_runs(ctx, chk, emit, transcription, base, rng, 40 if quick else 900, t0 + (32 if quick else 480))
+        msig_future = ex.submit(model_signatures, ctx, base, transcription, state["observed"])  # TLC validates the recorded runs
+        print(f"  [{time.time() - t0:.0f}s] conformance runs done", flush=True)
         # (a) counterexamples of the machine as coded, replayed; the intended machine holds
         for j in coded:
             futs[id(j)].result()
         ctx.cov["as_coded_models"] = replay_coded(ctx, chk, coded)
         chk.settle(1 if quick else 2)
         print(f"  [{time.time() - t0:.0f}s] discrepancies reproduced in fresh processes", flush=True)
+        conformance_compare(ctx, state, msig_future.result(), transcription)
+        print(f"  [{time.time() - t0:.0f}s] TLC validated {len(state['observed'])} recorded runs", flush=True)
         for j in intended:
             futs[id(j)].result()
             check_intended(ctx, j)
